@@ -291,6 +291,8 @@ class Scenario:
         self.max_phase = max_phase
         self.dir = os.path.join(ctx.wd, name)
         self.cases = []
+        self.dense = ctx.tier == "thorough"
+        self.light = False
 
     def reference(self):
         r = run_proc(self.ctx, self.cfg, os.path.join(self.dir, "ref"), start=self.start, refdir=True)
@@ -326,6 +328,9 @@ class Scenario:
                 if op["phase"] == 0 and self.start is None:
                     # the very first checkpoint of a fresh run: nothing protects it, tear it densely
                     for m in range(5, n, 8):
+                        pts.append((op["idx"], "tear:%d" % m))
+                if self.dense and op["phase"] <= 2 and self.start is None:
+                    for m in range(0, n):         # thorough: every byte of the first three checkpoints
                         pts.append((op["idx"], "tear:%d" % m))
         # distinct
         seen, out = set(), []
@@ -998,11 +1003,12 @@ def run(res, tier, seed, only=None, only_cfg=None):
     res.coverage.update({
         "evaluations": stats["kills"], "distinct_nontrivial": len(distinct),
         "rule": "for each configuration (family, budget, batch, njobs) an unkilled reference run records the file operations; every operation index k is "
-                "then used as a kill point (before / after the operation; writes also torn after 0, 1, half, len-1 bytes%s); second-level scenarios "
+                "then used as a kill point (before / after the operation; writes also torn after 0, 1, half, len-1 bytes%s; the first write of a fresh "
+                "run also at every 8th byte); second-level scenarios "
                 "restart from the files left by a kill between two checkpoints and kill the restarted process the same way.  After each kill: "
                 "files classified (bytes, real reader, model reader), restart in a fresh process, call logs compared.  non-trivial = the kill "
                 "operation is a write-side operation (open-truncate, write, close of a written stream); distinct by (scenario, hash of both "
-                "files after the kill, number of model calls before the kill)" % (", quarter points, 16, len-9" if tier == "thorough" else ""),
+                "files after the kill, number of model calls before the kill)" % (", quarter points, 16, len-9, and at EVERY byte for the first three checkpoints" if tier == "thorough" else ""),
         "samples": samples[:8],
         "programs": len(all_sc), "traces_validated_against_impl": n_corr_ok, "disagreements_checked": len(corr_bad),
         "correspondence": {"processes_followed_by_model": n_corr_ok, "breaks": len(corr_bad), "code_variant_recognised":
